@@ -33,7 +33,9 @@ def run(cx):
             'source-port-equal': rf'^eq\(SocketAddr::port\(SerialMessage::addr\({REQ_BYTES}\)\),SocketAddr::port\({RECV}\.1\)\)$',
             'id-equal': r'^eq\(\^arg1\.request(\.metadata)?\.id,try\(DnsResponse::from_buffer\(.*\)\)@Continue\.0(\.\w+)*\.id\)$',
             'questions-subset-of-request': r"^<Iter<'a;T> as Iterator>::all\(slice::iter\(try\(DnsResponse::from_buffer\(.*\)\)@Continue\.0(\.\w+)*\.queries\),closure:<UdpRequest<P> as Request>::send::\{closure#0\}::\{closure@all#0\}\)$",
-            'case-matches-when-randomised': r"^!\^arg1\.case_randomization$|^<Iter<'a;T> as Iterator>::all\(slice::iter\(.*\.queries\),closure:<UdpRequest<P> as Request>::send::\{closure#0\}::\{closure@all#1\}\)$",
+            # ... all(|e| any(|q| q == e && same case)), or its De Morgan dual !any(|e| !any(..))
+            'case-matches-when-randomised': r"^!\^arg1\.case_randomization$|^<Iter<'a;T> as Iterator>::all\(slice::iter\(.*\.queries\),closure:<UdpRequest<P> as Request>::send::\{closure#0\}::\{closure@all#1\}\)$"
+                                            r"|^!<Iter<'a;T> as Iterator>::any\(slice::iter\(.*\.queries\),closure:<UdpRequest<P> as Request>::send::\{closure#0\}::\{closure@any#0\}\)$",
             'within-3-datagrams': r'^ok\(range::next\(Range\(0,3\)\)\)$',
             'datagram-decoded': r'^ok\(DnsResponse::from_buffer\(',
         }
@@ -60,7 +62,13 @@ def run(cx):
         t = cx.true_returns(c0)
         ok = len(t) == 1 and bool(re.search(r'^slice::contains\(try\(Message::from_vec\(SerialMessage::bytes\(.*\^\^arg1\.request.*\)\)\)@Continue\.0(\.\w+)*\.queries,arg2\)$', t[0].term))
         cx.check('C16.G1', ok, c0.path, 'ret', 'question-membership-is-full-Query-equality', '; '.join(s.term[:200] for s in t), t[0].loc if t else '')
-    c1 = cx.fn('C16.G1', U + '::{closure@all#1}::{closure@any#0}')
+    dual = cx.prog.fn(U + '::{closure@any#0}') if not cx.prog.fn(U + '::{closure@all#1}') else None
+    if dual is not None:
+        # dual form: the outer closure is |e| !request.any(|q| ..): its value is the negation of the inner any
+        r_ = cx.returns(dual, r'.')
+        cx.check('C16.G1', len(r_) == 1 and bool(re.fullmatch(r"!<Iter<'a;T> as Iterator>::any\\(slice::iter\\(.*\\.queries\\),closure:<UdpRequest<P> as Request>::send::\\{closure#0\\}::\\{closure@any#0\\}::\\{closure@any#0\\}\\)".replace('\\\\', '\\'), r_[0].term)),
+                 dual.path, 'ret', 'dual-outer-closure-negates-the-inner-any', '; '.join(x.term[:160] for x in r_))
+    c1 = cx.fn('C16.G1', U + ('::{closure@any#0}::{closure@any#0}' if dual is not None else '::{closure@all#1}::{closure@any#0}'))
     if c1:
         t = cx.true_returns(c1)
         cx.guard('C16.G1', t, {'same-query': r'^eq:Query\(\^arg2,arg2\)$|^eq:Query\(arg2,\^arg2\)$', 'same-case': r'^Name::eq_case\(arg2\.name,\^arg2\.name\)$|^Name::eq_case\(\^arg2\.name,arg2\.name\)$'}, fn=c1)
@@ -102,10 +110,20 @@ def run(cx):
     nid = cx.fn('C16.G2', M + 'DnsMultiplexer::next_random_query_id')
     if nid:
         oks = cx.returns(nid, r'^Result::Ok\(')
-        cx.guard('C16.G2', oks, {'id-not-active': r'^!HashMap::contains_key\(arg1\.active_requests,RngExt::random\(.*\)\)$'}, expect=1, fn=nid)
-        for s in oks:
-            m = re.search(r'^Result::Ok\((.*)\)$', s.term)
-            cx.check('C16.G2', bool(m) and cx.has_guard(s, r'^!HashMap::contains_key\(arg1\.active_requests,' + re.escape(m.group(1)) + r'\)$'), nid.path, s.key(), 'returns-the-checked-id', s.term, s.loc)
+        # the same decision written as an iterator chain: candidates.find(|id| !active.contains_key(id)).ok_or_else(..)
+        chain = [s_ for s_ in cx.returns(nid, r'.') if re.search(r'^Option::ok_or(_else)?\(Iterator::find\(.*,closure:(DnsMultiplexer::next_random_query_id::\{closure@find#\d+\})\),', s_.term)]
+        if chain and not oks:
+            cx.check('C16.G2', len(chain) == 1, nid.path, 'ret', 'single-selection', str(len(chain)))
+            cn_ = re.search(r'closure:(DnsMultiplexer::next_random_query_id::\{closure@find#\d+\})', chain[0].term).group(1)
+            pc = cx.prog.fn('hickory_net::xfer::dns_multiplexer::' + cn_)
+            rt = cx.returns(pc, r'.') if pc else []
+            cx.check('C16.G2', len(rt) == 1 and bool(re.fullmatch(r'!HashMap::contains_key\(\^arg1\.active_requests,arg2\)', rt[0].term)), nid.path, 'ret',
+                     'id-selected-by-find(not active)', '; '.join(x.term[:120] for x in rt))
+        else:
+            cx.guard('C16.G2', oks, {'id-not-active': r'^!HashMap::contains_key\(arg1\.active_requests,RngExt::random\(.*\)\)$'}, expect=1, fn=nid)
+            for s in oks:
+                m = re.search(r'^Result::Ok\((.*)\)$', s.term)
+                cx.check('C16.G2', bool(m) and cx.has_guard(s, r'^!HashMap::contains_key\(arg1\.active_requests,' + re.escape(m.group(1)) + r'\)$'), nid.path, s.key(), 'returns-the-checked-id', s.term, s.loc)
 
     # ---------------------------------------------------------------- S1 routing
     pn = cx.fn('C16.S1', '<hickory_net::xfer::dns_multiplexer::DnsMultiplexer<S> as futures_core::stream::Stream>::poll_next')
